@@ -24,6 +24,7 @@ struct Def {
   bool core;                  // member of the reduced universe used for the largest subset size
   int cond = 0;               // 0 unconditional, 1 = [isA] (code == 1), 2 = [isB] (code == 2)
   bool condPool = false;      // unconditional partner of the conditional definitions in the availability pass
+  bool shape = false;         // chained definition of the chain-shape pass (>= 3 parts, prefix structure varied)
   bool passive() const { return kind == K_PASSIVE_READ || kind == K_PASSIVE_WRITE; }
   bool write() const { return kind == K_WRITE || kind == K_PASSIVE_WRITE; }
   bool chained() const { return parts.size() > 1; }
@@ -109,11 +110,21 @@ inline std::vector<Def> universe() {
   add(K_PASSIVE_READ, ANY, 0x08, {"0d0100"}, false); u.back().cond = 2;       // 44 [isB] passive
   add(K_READ, ANY, 0x08, {"0d0100", "0d0200"}, false); u.back().cond = 1;     // 45 [isA] chained
   add(K_PASSIVE_READ, ANY, 0x08, {"0d0100"}, false); u.back().cond = 1;       // 46 [isA] passive twin of 44
+  // chained definitions with three and more parts (indices >= FIRST_SHAPE): the common prefix of all parts differs
+  // from the prefix shared by the first and the last (or any two) parts; explored in the chain-shape pass together
+  // with the condPool partners
+  add(K_READ, ANY, 0x08, {"0d0001", "0d0102", "0d0003"}, false); u.back().shape = true;          // 47 middle part deviates first (common 0d)
+  add(K_READ, ANY, 0x08, {"0d0001", "0d0003", "0d0102"}, false); u.back().shape = true;          // 48 last part deviates first
+  add(K_WRITE, ANY, 0x08, {"0d01000203", "0d01010203", "0d01000204"}, false); u.back().shape = true;  // 49 5 byte IDs, common 0d01
+  add(K_READ, ANY, 0x08, {"0d0200", "0d0100", "0d0101"}, false); u.back().shape = true;          // 50 first part differs from the others
+  add(K_READ, ANY, 0x08, {"0d01", "0e01", "0d02"}, false); u.back().shape = true;                // 51 nothing in common
+  add(K_READ, ANY, ANY, {"0d0100", "0d0201", "0d0102", "0d0200"}, false); u.back().shape = true;  // 52 four parts, wildcard destination
   for (int i : {0, 1, 2, 3, 4, 11, 12, 13, 19, 30, 31, 32}) u[i].condPool = true;
   return u;
 }
 
 static const int FIRST_CONDITIONAL = 40;
+static const int FIRST_SHAPE = 47;
 // lines loaded before the definitions of a map that contains conditional definitions: the message the
 // conditions refer to (other PBSB than the universe) and the two conditions
 static const char* const COND_PRELUDE[] = {
